@@ -239,6 +239,14 @@ func (o *c13Out) note(s string) {
 	o.w.WriteString("N " + strings.ReplaceAll(s, "\n", " | ") + "\n")
 	o.mu.Unlock()
 }
+// progress marks the scenario about to run and flushes everything written so far (a child killed for hanging keeps
+// its finished lines, and the hang is attributed to the marked scenario)
+func (o *c13Out) progress(s string) {
+	o.mu.Lock()
+	o.w.WriteString("P " + s + "\n")
+	o.w.Flush()
+	o.mu.Unlock()
+}
 func (o *c13Out) stat(k string, n int) {
 	o.mu.Lock()
 	o.stats[k] += n
@@ -606,6 +614,10 @@ func c13ChildMain() {
 		o.w.WriteString("DONE\n")
 		o.w.Flush()
 	}()
+	if os.Getenv("VERIF_C13_CHILD") == "seg" {
+		c13Segments(o, seed, tier)
+		return
+	}
 	root := NewRng(uint64(seed))
 	rounds := 2
 	if tier == "thorough" {
@@ -660,4 +672,5 @@ func c13ChildMain() {
 	for i := range protos {
 		o.line(fmt.Sprintf("C13 proto role%d chan %s => %s", i, snaps[i], c13SnapDigest(protos[i])))
 	}
+	// (the segmentPool scenario family of c13_seg.go runs in child processes of its own: mode "seg")
 }
